@@ -95,6 +95,11 @@ func (s *Schema) fill(parent *GNode, t reflect.Type, prefix []int) error {
 		f := t.Field(i)
 		idx := append(append([]int{}, prefix...), i)
 		if f.Anonymous && f.Type.Kind() == reflect.Struct {
+			if _, ok := columnName(f); !ok {
+				// an embedded struct tagged parquet:"-" is an excluded field like any other
+				s.Excluded = append(s.Excluded, Excluded{Owner: t, Index: []int{i}})
+				continue
+			}
 			// embedding == inlining (the embedded type's own name may be
 			// lower-case; Go still promotes its exported fields)
 			if err := s.fill(parent, f.Type, idx); err != nil {
